@@ -67,6 +67,11 @@ fn progs_for(front: &str, tier: Tier) -> Vec<(Program, Mode)> {
     let cap = if front == "sharded" { 4 } else { 2 };
     // two maintainers over a crowded directory
     add("maint|maint", cap, crowd(), vec![vec![api(Op::Set(k.clone(), v(0, 0)))], vec![api(Op::Put(j.clone(), v(1, 0)))]], true, b2);
+    // two maintainers reclaiming the same stale debris of dead writers
+    let mut littered = crowd();
+    littered.push(planted(&loc(".kismet_temp/dead1"), Val::new(25, Size::One), false, 200));
+    littered.push(planted(&loc(".kismet_temp/dead2"), Val::new(25, Size::One), false, 201));
+    add("debris-maint|maint", cap, littered, vec![vec![api(Op::Set(k.clone(), v(0, 0)))], vec![api(Op::Put(j.clone(), v(1, 0)))]], true, b2);
     // maintenance vs lookups and touches
     add("maint|get-touch", cap, crowd(), vec![vec![api(Op::Set(k.clone(), v(0, 0)))], vec![api(Op::Get(k.clone())), api(Op::Touch(j.clone()))]], true, b2);
     add("ensure|ensure-crowd", cap, crowd(), vec![vec![api(Op::Ensure(k.clone(), Pop::Value(v(0, 0))))], vec![api(Op::Ensure(j.clone(), Pop::Value(v(1, 0))))]], true, b2);
@@ -118,14 +123,13 @@ fn absence_section(shard: Shard, rep: &mut Report) {
     use std::sync::{Arc, Mutex};
     let mut no = 0u64;
     for scn in scn::all_scenarios() {
-        // (scenarios whose pre-state has debris are about temp files; the rest is what matters here)
-        if scn.debris() {
-            continue;
-        }
         let (n, trace, _res) = fault_free(&scn);
         for k in 0..n {
             let e = &trace[k];
-            let names_entry = e.path.as_ref().map(|p| {
+            // debris left in .kismet_temp by dead writers is reclaimed by every maintainer: a peer's reclamation
+            // looks the same (the operation's own temporary file is not debris; nobody else touches it)
+            let names_debris = e.path.as_ref().map(|p| p.contains("/.kismet_temp/") && p.ends_with("_debris")).unwrap_or(false);
+            let names_entry = names_debris || e.path.as_ref().map(|p| {
                 let name = std::path::Path::new(p).file_name().map(|n| n.to_string_lossy().into_owned()).unwrap_or_default();
                 (p.contains("/w/") || p.contains("/r0/")) && !p.contains("/.kismet_temp/") && !p.contains("/app_tmp/") && !name.starts_with('.') && !name.is_empty()
             }).unwrap_or(false);
@@ -195,8 +199,8 @@ pub fn run(tier: Tier, shard: Shard, rep: &mut Report) {
         directory at all (create_dir_all races with rename/link); plain, sharded (shard directories initially missing) and stacked \
         front-ends; every interleaving with <= 2 preemptions (thorough: bound 3, 3 participants, unbounded for one pair). Oracle: every \
         operation returns Ok (a lost race shows as a miss / false / a completed write), no panic, no deadlock. Plus, single-participant: every call of every C02 scenario that names a cache entry \
-        answered ENOENT and ESTALE in turn (what a concurrent removal looks like on a network filesystem): the operation must not fail. \
-        Non-trivial = execution with >= 1 preemption."
+        answered ENOENT and ESTALE in turn (what a concurrent removal looks like on a network filesystem): the operation must not fail; likewise every call naming a piece of debris in .kismet_temp \
+        (which a peer's maintenance reclaims too). Non-trivial = execution with >= 1 preemption."
         .into();
     rep.assumptions = vec![
         "the adversary deletes published entries only (never temp files or directories); callers pass valid names and same-filesystem sources".into(),
